@@ -204,6 +204,7 @@ type runner struct {
 	shared []string
 	p0     []int
 	chain  [][]chainItem
+	burst  []chainItem
 
 	txn          client.Txn
 	commitStart  int64
@@ -379,6 +380,11 @@ func (r *runner) setup() {
 	// more retries than there are commits in the whole case: a merge can then never run out of
 	// retries legitimately (each lost attempt needs its own conflicting commit)
 	opts := []node.Option{db.WithMaxRetries(4*total + 1000)}
+	if c.Burst > 0 {
+		// merges of one document are serialised by the merge queue and nothing else writes it, so
+		// they can never conflict: a small retry budget must be enough
+		opts = []node.Option{db.WithMaxRetries(c.BurstRetries)}
+	}
 	var err error
 	if c.P2P {
 		opts = append(opts, node.WithDisableP2P(false), netConfig.WithListenAddresses("/ip4/127.0.0.1/tcp/0"))
@@ -443,6 +449,9 @@ func (r *runner) setup() {
 		}
 		r.shared = append(r.shared, id)
 		r.p0 = append(r.p0, p0)
+		if d == 0 && c.Burst > 0 {
+			r.makeBurst(id, ups[0].Cid)
+		}
 		var ch []chainItem
 		for k := 1; k <= c.Chain; k++ {
 			delta := 100*k + d
@@ -460,6 +469,61 @@ func (r *runner) setup() {
 	}
 	if c.Warm {
 		r.warmUp()
+	}
+}
+
+// makeBurst produces c.Burst sibling commits of the document: each on a node of its own that knows
+// only the create commit, incrementing the counter by a distinct amount. The blocks are copied into
+// the node under test right away (what the DAG sync does before a Merge event is published).
+func (r *runner) makeBurst(id string, create cid.Cid) {
+	for k := 0; k < r.c.Burst; k++ {
+		n := hx.MustMemNode()
+		if _, err := n.DB.AddSchema(n.Ctx, sdl(false)); err != nil {
+			hx.Harnessf("schema rejected: %v", err)
+		}
+		if _, err := hx.CopyClosure(n.Ctx, r.src, n, create); err != nil {
+			hx.Harnessf("copy closure: %v", err)
+		}
+		if err := n.DB.VerifMerge(n.Ctx, event.Merge{DocID: id, Cid: create, CollectionID: r.colID}); err != nil {
+			hx.Harnessf("merge of the create commit on a burst node failed: %v", err)
+		}
+		tap := hx.NewEventTap(n)
+		delta := 1000 + 37*k
+		res := n.Exec(fmt.Sprintf(`mutation { update_Users(docID: %q, input: {pn: %d, r: %d}) { _docID } }`, id, delta, k+1))
+		if !res.OK() {
+			hx.Harnessf("burst update: %s %s", res.Err(), res.Panic)
+		}
+		var c cid.Cid
+		found := 0
+		for _, u := range tap.Take() {
+			if u.DocID == id {
+				c = u.Cid
+				found++
+			}
+		}
+		if found != 1 {
+			hx.Harnessf("expected one document update event on a burst node, got %d", found)
+		}
+		if _, err := hx.CopyClosure(r.ctx, n, r.tgt, c); err != nil {
+			hx.Harnessf("copy closure: %v", err)
+		}
+		tap.Close()
+		n.Close()
+		r.burst = append(r.burst, chainItem{cid: c, delta: delta, r: k + 1})
+	}
+}
+
+// publishBurst publishes this goroutine's share of the burst back to back, without waiting.
+func (r *runner) publishBurst(g int) {
+	if r.c.Burst == 0 || g >= r.c.BurstPublishers {
+		return
+	}
+	for k, it := range r.burst {
+		if k%r.c.BurstPublishers != g {
+			continue
+		}
+		r.merges.publish(mergeKey(r.shared[0], it.cid.String()), r.tick.Add(1))
+		r.tgt.DB.Events().Publish(event.NewMessage(event.MergeName, event.Merge{DocID: r.shared[0], Cid: it.cid, CollectionID: r.colID}))
 	}
 }
 
@@ -513,7 +577,12 @@ func (r *runner) close() {
 }
 
 // sharedFor maps a drawn document selector to a shared document.
-func (r *runner) sharedFor(g, d int) int { return d % len(r.shared) }
+func (r *runner) sharedFor(g, d int) int {
+	if r.c.Burst > 0 {
+		return 1 + d%(len(r.shared)-1) // document 0 is written by the burst only
+	}
+	return d % len(r.shared)
+}
 
 // writesShared tells whether goroutine g may write shared documents in this case.
 func (r *runner) writesShared(g int) bool {
@@ -524,6 +593,7 @@ func (r *runner) writesShared(g int) bool {
 }
 
 func (r *runner) goroutine(g int) {
+	r.publishBurst(g)
 	for i, op := range r.c.Lists[g] {
 		for y := 0; y < op.Yield; y++ {
 			runtime.Gosched()
